@@ -255,6 +255,7 @@ def r5_expansion_table(ctx) -> None:
     r.rule("C18.R5", "expansion table: SigmaCIDRExpression.expand(), interpreted on sample networks of both families (aligned and unaligned prefixes, zero-compressed addresses, /0, /32, /125…/128), yields the patterns of the independently written reference expansion")
     f = prog.func(EXP)
     bad = []
+    skipped = False
     for cidr in EXPAND_SAMPLES:
         net = ipaddress.ip_network(cidr)
         me = type("C", (), {})()
@@ -265,6 +266,10 @@ def r5_expansion_table(ctx) -> None:
         except Raised as ex:
             bad.append((cidr, f"raises {ex}"))
             continue
+        except AnalysisError as ex:  # the interpreter cannot follow this body: no verdict from this rule (floor below)
+            r.note(f"C18.R5: expand() not interpreted for {cidr}: {ex}")
+            skipped = True
+            break
         want = _reference_expand(net)
         if list(got) != want:
             miss = [p_ for p_ in want if p_ not in got]
@@ -272,6 +277,6 @@ def r5_expansion_table(ctx) -> None:
     if bad:
         cidr, why = bad[0]
         r.violation("C18.R5", EXP, f"expand() of {cidr}", f"{why} (+{len(bad) - 1} more network(s)): the patterns no longer stand for the addresses of the network", f.loc)
-    else:
+    elif not skipped:
         r.ok("C18.R5", EXP, f"{len(EXPAND_SAMPLES)} sample networks expand to the reference patterns", f.loc)
     r.floor("C18.R5", 1)
